@@ -4,6 +4,7 @@ import (
 	"fmt"
 	"os"
 	"strings"
+	"sync"
 	"testing"
 	"time"
 )
@@ -237,4 +238,127 @@ func TestDevAlias(t *testing.T) {
 		}
 	}
 	fmt.Println("pairs", st.testPairs.Get(), "halted", st.halted.Get(), "faulted", st.faulted.Get(), "refused", st.refused.Get(), "blocktx", st.blockTxs.Get())
+}
+
+func TestDevHFNatives(t *testing.T) {
+	if os.Getenv("C04_DEV") != "hfnatives" {
+		t.Skip()
+	}
+	w, err := buildWorldHF(false, 0, true)
+	if err != nil {
+		t.Fatal(err)
+	}
+	rg, err := w.newRig()
+	if err != nil {
+		t.Fatal(err)
+	}
+	defer rg.close()
+	fmt.Println("hardforks:", rg.n.BC.GetConfig().Hardforks)
+	for _, c := range rg.n.BC.GetNatives() {
+		cs := rg.n.BC.GetContractState(c.Hash)
+		if cs == nil {
+			fmt.Println(c.Manifest.Name, "NOT ACTIVE")
+			continue
+		}
+		for _, m := range cs.Manifest.ABI.Methods {
+			if !m.Safe {
+				var ps []string
+				for _, p := range m.Parameters {
+					ps = append(ps, p.Name+":"+p.Type.String())
+				}
+				fmt.Printf("%s.%s(%v) %s\n", cs.Manifest.Name, m.Name, ps, m.ReturnType)
+			}
+		}
+	}
+	c := &checker{w: w, rigs: make(chan *rig, 64), class: map[string]int{}}
+	if err := c.checkSpecTable(rg); err != nil {
+		fmt.Println("TABLE:", err)
+	}
+}
+
+func TestDevEscape(t *testing.T) {
+	if os.Getenv("C04_DEV") != "escape" {
+		t.Skip()
+	}
+	hw, err := buildWorldHF(false, 0, true)
+	if err != nil {
+		t.Fatal(err)
+	}
+	ew, err := buildEscapeWorld(hw)
+	if err != nil {
+		t.Fatal(err)
+	}
+	st := newEStats()
+	filter := os.Getenv("C04_CASE")
+	ops := eops()
+	rops, na, its, err := ew.nativeReadOps()
+	fmt.Println("safe native methods:", len(rops), "without halting args:", na, "iterators left out:", its, err)
+	ops = append(ops, rops...)
+	var wg sync.WaitGroup
+	var mu sync.Mutex
+	sem := make(chan struct{}, 8)
+	t0 := time.Now()
+	for i := range ops {
+		o := &ops[i]
+		if filter != "" && !strings.Contains(o.Name, filter) {
+			continue
+		}
+		wg.Add(1)
+		go func() {
+			defer wg.Done()
+			sem <- struct{}{}
+			defer func() { <-sem }()
+			t1 := time.Now()
+			var fails []efail
+			var err error
+			if os.Getenv("C04_PANIC") != "" {
+				fails, err = ew.runOp(o, ePathsOf(false), "tb", st, func() bool { return false })
+			} else if p := chainxTry(func() { fails, err = ew.runOp(o, ePathsOf(false), "tb", st, func() bool { return false }) }); p != nil {
+				err = p
+			}
+			mu.Lock()
+			defer mu.Unlock()
+			fmt.Printf("%-40s allowed=%04x effect=%04x fails=%d err=%v %v\n", o.Name, st.allowed[o.Name], st.effect[o.Name], len(fails), err, time.Since(t1))
+			for k, f := range fails {
+				if k < 4 {
+					fmt.Printf("    FAIL %s %s %s %.400s\n", f.Mode, f.What, f.Case.name(), fmt.Sprint(f.Detail))
+				}
+			}
+		}()
+	}
+	for i := range isrcs() {
+		src := isrcs()[i]
+		if filter != "" && !strings.Contains("iter-around:"+src.Name, filter) {
+			continue
+		}
+		wg.Add(1)
+		go func() {
+			defer wg.Done()
+			sem <- struct{}{}
+			defer func() { <-sem }()
+			is := &istats{yields: map[string]bool{}}
+			fails, err := ew.runIterAround(&src, st, is, func() bool { return false })
+			if err == nil {
+				var f2 []efail
+				f2, err = ew.runIterReturned(&src, st, is)
+				fails = append(fails, f2...)
+			}
+			mu.Lock()
+			defer mu.Unlock()
+			fmt.Printf("iter-around:%-40s cases=%d caught=%d fault=%d snapshots=%d returned=%d/%d visibleLater=%d blocks=%d contents=%d fails=%d err=%v\n", src.Name, is.cases, is.caughtHalt, is.caughtFault, is.snapshots, is.returnedLayered, is.returned, is.changeVisibleLater, is.blocks, len(is.yields), len(fails), err)
+			for k, f := range fails {
+				if k < 4 {
+					fmt.Printf("    FAIL %s %s %s %.400s\n", f.Mode, f.What, f.Case.name(), fmt.Sprint(f.Detail))
+				}
+			}
+			if os.Getenv("C04_VERBOSE") != "" {
+				for y := range is.yields {
+					fmt.Printf("    yields %.300s\n", y)
+				}
+			}
+		}()
+	}
+	wg.Wait()
+	fmt.Println("cases", st.cases.Get(), "testHalt", st.testHalt.Get(), "testFault", st.testFault.Get(), "blockHalt", st.blockHalt.Get(), "blockFault", st.blockFault.Get(),
+		"blocks", st.blocks.Get(), "execs", st.execs.Get(), "outcomes", len(st.outcomes), time.Since(t0))
 }
